@@ -158,6 +158,16 @@ def make_gcs_fs(store: Store):
 
 
 # ------------------------------------------------------------------------------------------ S3
+class _ShortReads(io.BytesIO):
+    """a streaming body (like botocore's StreamingBody over a socket): a read may return fewer bytes than asked for, at most 3 here,
+    without that meaning the end of the object"""
+
+    def read(self, n=-1):
+        if n is None or n < 0:
+            return super().read()
+        return super().read(min(n, 3))
+
+
 def make_s3_fs(store: Store, thread_pool):
     import botocore.exceptions
     from hailtop.aiocloud.aioaws import S3AsyncFS
@@ -181,7 +191,7 @@ def make_s3_fs(store: Store, thread_pool):
             store.record(first, last, status, data)
             if status == 416:
                 raise client_error("InvalidRange", 416, "GetObject")
-            return {"Body": io.BytesIO(data), "ContentLength": len(data)}
+            return {"Body": _ShortReads(data), "ContentLength": len(data)}
 
         def head_object(self, *, Bucket, Key):
             body = store.objects.get((Bucket, Key))
